@@ -266,7 +266,8 @@ P_C01_DeliveredSendsAccepted ==
         \/ /\ last.p.r.c = "FlowControlError"
            /\ \E i \in 1..Len(InFrames) : InFrames[i].t = "SET" /\ (InFrames[i].ack \/ \E j \in 1..Len(InFrames[i].s) : InFrames[i].s[j][1] = 4)
 \* C13: the HPACK encoder context becomes unpredictable only through a marked failed-send deviation
-P_C13_CleanSendsDecode == \A x \in Roles : eps[x].hd => "failed_send_partial_state" \in eps[x].dev
+\* (or through a table size the peer was never told about: known finding hpack_size_update_dropped)
+P_C13_CleanSendsDecode == \A x \in Roles : eps[x].hd => eps[x].dev \cap {"failed_send_partial_state", "hpack_size_update_dropped"} # {}
 \* C02: no emitted DATA frame is larger than the peer's MAX_FRAME_SIZE in force when it was sent
 P_C02_FramesWithinLimits ==
   (HasSrc /\ OwnOutput) => \A i \in 1..Len(OutF) :
